@@ -289,7 +289,7 @@ def gt_is_lna_enabled():
 
 def gt_crc():
     for cfg in (0x00, 0x04, 0x08, 0x0C, 0x7A, 0x7E):
-        for aa in (0, 1, 0x3F):
+        for aa in (0, 1, 0x3F, 0x3E, 0x02, 0x20):
             en, two = cfg & 8, cfg & 4
             if aa:
                 exp = 2 if two else 1   # CRC is forced on by the radio when any pipe auto-acknowledges
